@@ -211,6 +211,7 @@ pub fn arc_build(files: &[(String, Vec<u8>)], plan: &ArcPlan, rng: &mut Rng) -> 
     if plan.shuffle_records {
         rng.shuffle(&mut rec_order);
     }
+    let index_mode = rng.below(6);
     for (slot, i) in rec_order.iter().enumerate() {
         let at = rec_at + 16 * slot;
         let mut size = files[*i].1.len() as u32;
@@ -224,7 +225,15 @@ pub fn arc_build(files: &[(String, Vec<u8>)], plan: &ArcPlan, rng: &mut Rng) -> 
                 _ => offset = (final_len - base + 1) as u32,
             }
         }
-        a.data[at + 4..at + 8].copy_from_slice(&(slot as u32).to_le_bytes());
+        // the index word is not used for extraction: usually the slot number, sometimes all equal,
+        // sometimes arbitrary
+        let index_word = match index_mode {
+            0 | 1 | 2 => slot as u32,
+            3 => 0,
+            4 => 7,
+            _ => rng.u32(),
+        };
+        a.data[at + 4..at + 8].copy_from_slice(&index_word.to_le_bytes());
         a.data[at + 8..at + 12].copy_from_slice(&size.to_le_bytes());
         a.data[at + 12..at + 16].copy_from_slice(&offset.to_le_bytes());
         if plan.nameless_record != Some(slot) {
@@ -237,9 +246,14 @@ pub fn arc_build(files: &[(String, Vec<u8>)], plan: &ArcPlan, rng: &mut Rng) -> 
     // labels; `Info` first on its address like the sample file
     if !plan.drop_info_label {
         a.labels.entry(info_at).or_default().insert(0, "Info".into());
+    } else if rng.bool() {
+        // a label that differs from the reserved one only in case / by a blank is NOT that label
+        a.labels.entry(info_at).or_default().insert(0, rng.pick(&["INFO", "info", "Info ", "Inf"]).to_string());
     }
     if !plan.drop_count_label {
         a.labels.entry(count_at).or_default().push("Count".into());
+    } else if rng.bool() {
+        a.labels.entry(count_at).or_default().push(rng.pick(&["COUNT", "count", " Count", "Counts"]).to_string());
     }
     if plan.decoy_labels {
         a.labels.entry(data_label_at).or_default().push("Data".into());
